@@ -273,11 +273,13 @@ CLAIMED["C02"] = {
             "whole quantifier domain (offsets ±10 s, ±150 ppm, delay 1-400 us, jitter 0-20 us, intervals 2^-3..2^1 s, random delay-request "
             "spacing, out-of-order delay measurements, update timer), with an oracle on the true offset (below 500 ns + 1.5 x jitter "
             "within 60 + 350·I s, staying there, no step afterwards). Every call of every scenario is also compared bit for bit with the "
-            "Lean servo model. Proved in Lean, for every rounding arithmetic and every filter state: below the step threshold the servo "
+            "Lean servo model. A second, full-stack simulation (portloop) puts a real slave Port with the real KalmanFilter into the "
+            "loop - frames, transmit timestamps (also reported after the response), the port's own timers and BMCA runs through the "
+            "public host interface - under the same oracle. Proved in Lean, for every rounding arithmetic and every filter state: below the step threshold the servo "
             "gives at most one frequency command and never a step (no_step_below_threshold, step_only_at_threshold); steer programs "
             "slewTarget of the estimate (steer_slews_to_target); outside the dead zone the slew target has the sign opposite to the "
             "estimated offset, for every arithmetic with the IEEE sign rule (steering_opposes_offset).",
-    "note": "Trusted: Lean kernel; the closed-loop simulator (harness/src/streams/gen_loop.rs: clock model, path model, event queue); "
+    "note": "Trusted: Lean kernel; the closed-loop simulators (harness/src/streams/gen_loop.rs, portloop.rs: clock model, path model, event queue); "
             "generators; the calibration of bound and deadline. The convergence verdict is bounded simulation, not proof.",
     "technique": "Lean 4 theorems for the control law's structure + bit-exact differential correspondence of the servo on closed-loop histories + closed-loop simulation oracle (sampling) for convergence",
 }
